@@ -85,6 +85,53 @@ pub fn part_c03(tier: Tier) -> Part {
     part
 }
 
+pub fn part_c10(tier: Tier) -> Part {
+    use crate::corpus::Stmt;
+    let mut part = Part::new("e2e-signals-self-raised");
+    let cfg = ExploreCfg {
+        prop: "C10",
+        depth: if tier == Tier::Quick { 5 } else { 7 },
+        oracles: oracles_for("C10"),
+        steps: true,
+        restart: false,
+        failing: false,
+        remove_by_num: false,
+        bp_only_before_start: true,
+        continue_after_start: true,
+        wall: wall_cap(tier, 50, 3000),
+    };
+    let bodies = vec![
+        vec![Stmt::Raise(10), Stmt::CallF, Stmt::Raise(14)],
+        vec![Stmt::RaiseBurst, Stmt::Assign],
+        vec![Stmt::Raise(12), Stmt::While(2), Stmt::Raise(10)],
+    ];
+    let progs = corpus::build_many(&bodies, &[Config::default_cfg()]).and_then(prepare);
+    let progs = match progs {
+        Ok(p) => p,
+        Err(e) => {
+            part.violate("C10:machinery:corpus", e, json!({}));
+            part.exhaustive = false;
+            return part;
+        }
+    };
+    part.bounds = json!({"programs": progs.len(), "depth": cfg.depth, "signals": "SIGUSR1, SIGUSR2 (non-quiet), SIGALRM (quiet), raised by the program on itself; one program blocks USR1+USR2, raises both and unblocks (two pending at once)", "alphabet": "breakpoints before start; start/continue/stepi/step/next/finish at every stop"});
+    part.rule = "explicit-state exploration of command histories over programs that raise signals on themselves and count handler runs; oracle: every non-quiet signal of the reference trace is reported once as a signal stop (with the receiving thread) in the state just before its handler, quiet ones are not reported, and whatever mix of continue and step commands is used the handler counters printed at exit equal the native run (each signal delivered exactly once); text patches as in C02".into();
+    let deadline = Instant::now() + cfg.wall;
+    for p in &progs {
+        let mut cands = vec![];
+        for mark in ["raise", "raise1", "post", "unblock"] {
+            if let Some(l) = p.line_of(mark) {
+                if !p.stmt_addrs(l).is_empty() && cands.len() < 2 {
+                    cands.push(Cand::Line(l));
+                }
+            }
+        }
+        explore_program(p, &cands, &cfg, &mut part, deadline);
+    }
+    part.traces_validated = part.transitions;
+    part
+}
+
 pub fn part_c05(tier: Tier) -> Part {
     let mut part = Part::new("e2e-backtrace");
     let cfg = ExploreCfg {
